@@ -40,6 +40,10 @@ IU = 'utils.iter_utils'
 def run(ctx: Ctx):
   for r in (r1, r2, r3, r4, r6):
     ctx.guard(r)
+  from mlmverif.props import c02
+  ctx.include('R-C10-7', 'a restored pipeline continues with the WHOLE checkpointed'
+              ' aggregation state: every (metric, slice) entry of the given'
+              ' state that belongs to the runner is kept (R-C02-6)', c02.r6, min_instances=1)
   ctx.include('R-C10-5', 'restoring replays the recorded shard chain over the'
               ' unsharded source with the same configuration (R-C09-2); the'
               ' recorded position counts exactly the elements consumed'
@@ -426,6 +430,9 @@ _F = 'chainables/io.py'
 _T = 'chainables/transform.py'
 _U = 'utils/iter_utils.py'
 VARIANTS = [
+    B('restore-drops-sliced-states', _T,
+      '        k: v for k, v in state.items() if k.metrics in self._runner.agg_fns\n',
+      '        k: v for k, v in state.items() if k in {MetricKey(key) for key in self._runner.agg_fns}\n', 'R-C10-7'),
     B('revert-state-not-behind-restore', _F,
       '    start_index = max(self._index, self.config.state.start_index)\n    return dc.replace(self.config.state, start_index=start_index)',
       '    return dc.replace(self.config.state, start_index=self._index)', 'R-C10-1'),
